@@ -137,7 +137,8 @@ CLAIMED = {
             "message, key and DER encoding under embit (both backends) and under independent Lean SEC 1 / BIP340 verifiers. Known "
             "finding C07-KF2: for message values 0 mod n the negated key verifies (property of ECDSA, theorem neg_key_verifies_z0).",
             "Trusted: Lean kernel + propext/Quot.sound/Classical.choice; EcLaws for secp256k1 (hypothesis); the Python harness; CPython, "
-            "hashlib, libsecp256k1. The Lean SHA-256/HMAC/secp256k1 used by the driver are validated against embit by every run.",
+            "hashlib, libsecp256k1. The Lean SHA-256/HMAC/secp256k1 used by the driver are validated against embit by every run."
+            " EcLaws / KeyLaws (the group laws of secp256k1: prime group order n, every point a multiple of G, coordinate and parity laws) are HYPOTHESES of these theorems, never axioms; in Lean they are inhabited only by toy curves (non-vacuity). For the real curve they are mathematics this development does not prove (it needs point counting / Hasse, absent from Mathlib): the executable Lean curve arithmetic is tied to libsecp256k1 and embit only differentially, on every run.",
             "§5 C07"),
     "C08": ("proof",
             "Lean 4 theorems (model of py_secp256k1 = contract of the wrapped libsecp256k1 function, all byte inputs) + three "
@@ -163,7 +164,8 @@ CLAIMED = {
             "pool; 14 genuine divergences (incl. three interpreter aborts) were found and repaired by fixes/01..14. Known finding C08-KF1: "
             "in-place variants on an immutable bytes argument.",
             "Trusted: Lean kernel + standard axioms; EcLaws (hypothesis, non-vacuous); libsecp256k1 is a black box (contract validated "
-            "differentially, ~3.8k cases quick / 55k thorough); the harness and its worker process; nonce_function arguments are not compared.",
+            "differentially, ~3.8k cases quick / 55k thorough); the harness and its worker process; nonce_function arguments are not compared."
+            " EcLaws / KeyLaws (the group laws of secp256k1: prime group order n, every point a multiple of G, coordinate and parity laws) are HYPOTHESES of these theorems, never axioms; in Lean they are inhabited only by toy curves (non-vacuity). For the real curve they are mathematics this development does not prove (it needs point counting / Hasse, absent from Mathlib): the executable Lean curve arithmetic is tied to libsecp256k1 and embit only differentially, on every run.",
             "§5 C08"),
     "C11": ("proof",
             "Lean 4 theorems (codecs are exact inverses, decoders accept exactly the valid encodings, GF(2) rank proofs of 4-error "
@@ -516,7 +518,8 @@ CLAIMED = {
             "privkey_add/negate, pubkey_add) is modelled, C08 compares it with both backends. embit refuses a TapTweak hash of 0, "
             "BIP341 only t >= n (probability 2^-256; stated in taproot_eq_bip341). Path text: ASCII, CPython's 4300-digit limit not "
             "modelled; parse_path's leniency (int() accepts '-1', '1_0', ' 1') is modelled and noted, not judged. BIP32's 'use the "
-            "next index' after an invalid child is the caller's business.",
+            "next index' after an invalid child is the caller's business."
+            " EcLaws / KeyLaws (the group laws of secp256k1: prime group order n, every point a multiple of G, coordinate and parity laws) are HYPOTHESES of these theorems, never axioms; in Lean they are inhabited only by toy curves (non-vacuity). For the real curve they are mathematics this development does not prove (it needs point counting / Hasse, absent from Mathlib): the executable Lean curve arithmetic is tied to libsecp256k1 and embit only differentially, on every run.",
             "§5 C09"),
     "C10": ("proof",
             "Lean 4 theorems (SEC parser = strict SEC decoder on all byte strings, SEC / WIF / xkey round trips over the generated "
@@ -558,7 +561,8 @@ CLAIMED = {
             "used by C10X is proved for the concrete layer; that concrete "
             "Model/Base58Check.lean is corresponded with embit.base58 every run; the Python harness. Rejection theorems are about the "
             "model, which the correspondence ties to the code; exception classes are not compared (a truncated xkey raises IndexError, "
-            "not an EmbitError). The private key rebuilt by HDKey.parse carries the default network (the 78 bytes carry none).",
+            "not an EmbitError). The private key rebuilt by HDKey.parse carries the default network (the 78 bytes carry none)."
+            " EcLaws / KeyLaws (the group laws of secp256k1: prime group order n, every point a multiple of G, coordinate and parity laws) are HYPOTHESES of these theorems, never axioms; in Lean they are inhabited only by toy curves (non-vacuity). For the real curve they are mathematics this development does not prove (it needs point counting / Hasse, absent from Mathlib): the executable Lean curve arithmetic is tied to libsecp256k1 and embit only differentially, on every run.",
             "§5 C10"),
     "C12": ("proof",
             "Lean 4 theorems (BIP380 checksum incl. create/verify identity; print-parse round trip of the character-level parser for "
@@ -594,7 +598,8 @@ CLAIMED = {
             "ASCII text only (Python int()/strip accept more Unicode); miniscript typing/compilation is C13's model; addresses "
             "are compared on embit only (C11). script_eq_spec needs argsOk (direct pushes, equal-length keys in sortedmulti: true "
             "for compressed keys). Observations, not findings: uncompressed keys are accepted in wpkh/wsh/tr; script_pubkey() of an "
-            "underived descriptor ignores the derivation steps; key-origin path elements are unbounded ints.",
+            "underived descriptor ignores the derivation steps; key-origin path elements are unbounded ints."
+            " EcLaws / KeyLaws (the group laws of secp256k1: prime group order n, every point a multiple of G, coordinate and parity laws) are HYPOTHESES of these theorems, never axioms; in Lean they are inhabited only by toy curves (non-vacuity). For the real curve they are mathematics this development does not prove (it needs point counting / Hasse, absent from Mathlib): the executable Lean curve arithmetic is tied to libsecp256k1 and embit only differentially, on every run.",
             "§5 C12"),
     "C14": ("proof",
             "Lean 4 theorems (owns soundness, never-claims, completeness for honest scopes, over every key list / scope / derive "
